@@ -230,6 +230,8 @@ def no_view_stored(F, rep, ctx):
         "bytecode::context::Ctx::update_callback_variable": 2, "bytecode::stack::PrimitiveFlagsPair::new": 0,
         "bytecode::stack::PrimitiveFlagsPair::set_primitive": 1, "bytecode::variables::primitive::HeapPrimitive::set": 1,
         "bytecode::context::Ctx::ref_variable": None,
+        # ... and whatever is put into a list: an element that is a view of another container's slot keeps following that slot
+        "alloc::vec::Vec::push": 1, "alloc::vec::Vec::insert": 2,
     }
     SAFE = ("bytecode::variables::primitive::Primitive::move_out_of_heap_primitive", "bytecode::stack::PrimitiveFlagsPair::primitive",
             "core::ops::arith::Add::add", "core::ops::arith::Sub::sub", "core::ops::arith::Mul::mul", "core::ops::arith::Div::div",
@@ -246,6 +248,8 @@ def no_view_stored(F, rep, ctx):
             for pat, idx in STORES.items():
                 if idx is None or not c.matches(pat):
                     continue
+                if pat.startswith("alloc::vec::Vec::") and "bytecode::variables::primitive::Primitive" not in " ".join(c.t["func"].get("ga") or [])[:160]:
+                    continue            # only lists of program values
                 n += 1
                 l = op_local(c.args[idx])
                 by = {x.bb: x for x in f.calls()}
